@@ -143,6 +143,7 @@ Proof.
             | Some s => match nid_parse s with Some n => Some (Some n) | None => None end
             | None => Some None end) as [ob|]; [|left; eexists; reflexivity].
   destruct (list_eqb_spec dom (domain cfg)) as [->|Hd]; cbn [negb]; [|left; eexists; reflexivity].
+  destruct (_ && (max_channels cfg <=? _)); [left; eexists; reflexivity|].
   set (who := match ob with Some n => _ | None => _ end).
   assert (Hwho : (exists e, who = inl e) \/
                  (exists n, who = inr n /\
@@ -812,7 +813,7 @@ Module EvWitness.
   Definition wcfg : scfg :=
     {| domain := bs "localhost"; has_mod := true; op_auth := true; op_fbp := false; op_fev := true; op_spp := false;
        proto := []; max_clients := 10; max_subs := 10; max_payload_cfg := 1000; max_inflight := 10; max_message := 1000;
-       keepalive := 60; min_keepalive := 1; max_conns := 10; pool_budget := 100000 |}.
+       keepalive := 60; min_keepalive := 1; max_conns := 10; pool_budget := 100000; max_channels := 100 |}.
   Definition m_connect := build "CONNECT" [(bs "version", VNum 1); (bs "heartbeat_interval", VNum 0)].
   Definition m_auth := build "AUTH" [(bs "token", VStr (bs "t"))].
   Definition m_join (i : N) (ch : string) := build "JOIN" [(bs "id", VNum i); (bs "channel", VStr (bs ch))].
